@@ -3,7 +3,7 @@ import Gossamer.Model.C30
 open Gossamer Gossamer.C30
 
 /- Sequence line: `<maxIn> <maxOut> <ro>|op;op;...` over peers 0..4 with
-     ar|rr|ap|rp|in|dc <peers> ><hint>    rep <value> <peers> ><hint>    tk ><hint>    adv <k> <mask>
+     ar|rr|ap|rp|in|dc|dcr <peers> ><hint>    sr <peers> <unreserved, in order> ><hint>    sp    so    rep <value> <peers> ><hint>    tk ><hint>    adv <k> <mask>
    (`<peers>`/`<mask>`: digit string or `-`; `<hint>`: the messages the implementation emitted, e.g.
    `C1D2`).  Output: one record per op joined by `;`
      `<msgs>[!] <numIn>,<numOut> r<reserved> n<noSlot> <delta> <inv>`
@@ -47,6 +47,13 @@ def parseOp? (toks : List String) : Option (String × Op NP × List (Msg NP)) :=
   match toks with
   | ["tk", h] => do let hh ← parseHint? h; pure ("tk", Op.tick, hh)
   | ["tk"] => some ("tk", Op.tick, [])
+  | ["sp"] => some ("sp", Op.sortedPeers, [])
+  | ["so"] => some ("so", Op.setReservedOnly, [])
+  | ["sr", ps, ord, h] => do
+    let pp ← parsePeers? ps
+    let oo ← parsePeers? ord
+    let hh ← parseHint? h
+    pure ("sr", Op.setReserved pp oo, hh)
   | ["adv", k, m] => do
     let kk ← k.toNat?
     let mm ← parsePeers? m
@@ -66,6 +73,7 @@ def parseOp? (toks : List String) : Option (String × Op NP × List (Msg NP)) :=
     | "rp" => pure (name, Op.removePeer pp, hh)
     | "in" => pure (name, Op.incoming pp, hh)
     | "dc" => pure (name, Op.disconnect pp, hh)
+    | "dcr" => pure (name, Op.disconnectRefused pp, hh)
     | _ => none
   | _ => none
 
@@ -115,6 +123,8 @@ def normalize (s : PS NP) : PS NP :=
            fmask := fun p => fm[p.val]! }
 
 structure DAcc where
+  /-- the case drives the real Handler through its API: errors of the methods are not observable -/
+  viaHandler : Bool
   s : PS NP
   outs : List String      -- per-op records (model)
   specs : List String     -- per-op records (spec: invariant flags forced to ok)
@@ -129,21 +139,32 @@ def runOps (acc : DAcc) : List (String × Op NP × List (Msg NP)) → DAcc
     let s1 := normalize r.1
     let msgs := r.2.1
     let isAdv := match op with | .adv _ _ => true | _ => false
-    if !isAdv && msgs != hint then
+    -- setReservedPeer: the peers the line says were unreserved must be the ones the model unreserves
+    let srOk := match op with
+      | .setReserved _ ord =>
+        let removed := (allPeers NP).filter (fun p => acc.s.reserved p && !s1.reserved p)
+        removed == (allPeers NP).filter (fun p => decide (p ∈ ord))
+      | _ => true
+    if !isAdv && (msgs != hint || !srOk) then
       { acc with outs := acc.outs ++ ["badhint"], specs := acc.specs ++ ["badhint"], stopped := true }
     else
       let fl := invFlags s1
-      let pre := s!"{showMsgs msgs}{if r.2.2 then "!" else ""} {s1.numIn},{s1.numOut} r{digitsOf s1.reserved} n{digitsOf s1.noSlot} {deltaOf acc.s s1} "
+      let shown := match op with
+        | .sortedPeers => "S" ++ (let l : List (Fin NP) := sortedPeers acc.s; if l.isEmpty then "-" else String.join (l.map (fun (p : Fin NP) => toString p.val)))
+        | _ => showMsgs msgs
+      let pre := s!"{shown}{if r.2.2 && !acc.viaHandler then "!" else ""} {s1.numIn},{s1.numOut} r{digitsOf s1.reserved} n{digitsOf s1.noSlot} {deltaOf acc.s s1} "
       let bad := fl != "ok"
       let acc' : DAcc :=
-        { s := s1, outs := acc.outs ++ [pre ++ fl], specs := acc.specs ++ [pre ++ "ok"],
+        { viaHandler := acc.viaHandler, s := s1, outs := acc.outs ++ [pre ++ fl], specs := acc.specs ++ [pre ++ "ok"],
           firstBad := if bad && acc.firstBad.isNone then some name else acc.firstBad,
           onlySlots := acc.onlySlots && (fl.toList.all (fun c => c == 'a' || c == 'b' || c == 'o' || c == 'k')),
           stopped := false }
       runOps acc' rest
 
 def stepSeq (hdr body : String) : String :=
-  match words hdr with
+  let hw := words hdr
+  let via := hw.length == 4 && hw.getLast? == some "h"
+  match (if via then hw.dropLast else hw) with
   | [a, b, r] =>
     match a.toNat?, b.toNat?, r.toNat? with
     | some mi, some mo, some ro =>
@@ -151,14 +172,15 @@ def stepSeq (hdr body : String) : String :=
       match opsS.mapM (fun o => parseOp? (words o)) with
       | none => "bad-op"
       | some ops =>
-        let acc := runOps { s := newPS mi mo (ro != 0), outs := [], specs := [], firstBad := none,
+        let acc := runOps { viaHandler := via, s := newPS mi mo (ro != 0), outs := [], specs := [], firstBad := none,
                             onlySlots := true, stopped := false } ops
         let fin := if acc.stopped then "" else "|" ++ fullState acc.s
         let model := ";".intercalate acc.outs ++ fin
         let spec := ";".intercalate acc.specs ++ fin
         if model == spec then model
         else
-          let kf := if acc.firstBad == some "rr" && acc.onlySlots then "\tkf=unreserve-over-max" else ""
+          let kf := if (acc.firstBad == some "rr" || acc.firstBad == some "sr") && acc.onlySlots
+            then "\tkf=unreserve-over-max" else ""
           model ++ "\tspec=" ++ spec ++ kf
     | _, _, _ => "bad-op"
   | _ => "bad-op"
